@@ -2801,8 +2801,9 @@ func (te *TemplateEngine) renderImages(content string, images map[string]*Templa
 // processImagePlaceholders 处理文档中的图片占位符
 func (te *TemplateEngine) processImagePlaceholders(doc *Document, data *TemplateData) error {
 	// 遍历文档元素，查找并替换图片占位符
-	for i, element := range doc.Body.Elements {
-		switch elem := element.(type) {
+	// 元素列表在循环中会被替换/变长，因此按当前列表的下标遍历，并跳过刚插入的元素
+	for i := 0; i < len(doc.Body.Elements); i++ {
+		switch elem := doc.Body.Elements[i].(type) {
 		case *Paragraph:
 			// 检查段落是否包含图片占位符
 			newElements, err := te.processImagePlaceholdersInParagraph(elem, data, doc)
@@ -2814,6 +2815,7 @@ func (te *TemplateEngine) processImagePlaceholders(doc *Document, data *Template
 			if len(newElements) > 1 || (len(newElements) == 1 && newElements[0] != elem) {
 				// 移除原段落，插入新元素（可能包含图片段落）
 				doc.Body.Elements = append(doc.Body.Elements[:i], append(newElements, doc.Body.Elements[i+1:]...)...)
+				i += len(newElements) - 1
 			}
 		case *Table:
 			// 处理表格中的图片占位符 (Fix for Issue #91)
